@@ -247,8 +247,42 @@ def table_of(cat, cols):
     return labs, out
 
 
+def bilinear_at(img, x, y):
+    """bilinear interpolation at (x, y), coordinates clamped to the image (scipy map_coordinates order=1, mode='nearest')"""
+    ny, nx = img.shape
+    x, y = min(max(x, 0.0), nx - 1.0), min(max(y, 0.0), ny - 1.0)
+    x0, y0 = int(np.floor(x)), int(np.floor(y))
+    x1, y1 = min(x0 + 1, nx - 1), min(y0 + 1, ny - 1)
+    fx, fy = x - x0, y - y0
+    return ((1 - fy) * ((1 - fx) * img[y0, x0] + fx * img[y0, x1]) + fy * ((1 - fx) * img[y1, x0] + fx * img[y1, x1]))
+
+
+def background_at_centroid(rep, c, cat):
+    """(S) background_centroid = the background map interpolated at (xcentroid, ycentroid) - x is the column"""
+    if c['bkg'] is None:
+        return
+    with warnings.catch_warnings():
+        warnings.simplefilter('ignore')
+        bc = np.atleast_1d(np.asarray(getattr(cat.background_centroid, 'value', cat.background_centroid), float))
+        xs = np.atleast_1d(np.asarray(cat.xcentroid, float))
+        ys = np.atleast_1d(np.asarray(cat.ycentroid, float))
+    bkg = np.asarray(c['bkg'], float)
+    rep.count('background_centroid-oracle', len(bc))
+    for i, (b, x, y) in enumerate(zip(bc, xs, ys)):
+        if not (np.isfinite(x) and np.isfinite(y)):
+            if not np.isnan(b):
+                rep.violation('background_centroid:nan-centroid', 'background_centroid is a number for a source without a centroid', replay_of(c))
+            continue
+        e = bilinear_at(bkg, x, y)
+        if np.isfinite(e) and not close(b, e, 1e-9, scale=max(1.0, float(np.nanmax(np.abs(bkg))))):
+            rep.violation('background_centroid', f'row {i}: background_centroid = {b} but the background interpolated at the centroid '
+                          f'(x={x:.3f}, y={y:.3f}) is {e}', replay_of(c))
+            return
+
+
 def probes(rep, r, c, cat, rows):
     """(S) metamorphic relations on the implementation, all default columns (kron etc. included)"""
+    background_at_centroid(rep, c, cat)
     if r.random() > 0.35:
         return
     labs, base = table_of(cat, DEFAULT_COLS)
